@@ -77,15 +77,20 @@ def run(ctx):
                                     harmless = "short"
                                 elif lim == 2:
                                     harmless = "two"
-                    if harmless in ("empty", "short"):
+                    guard_if = g.par.stmt_of(conds_[0][0]) if conds_ else None
+                    if harmless in ("empty", "short") and guard_if is not None and any(guard_if is s for s in node.body):
+                        o1.holds(fn, call, f"the shuffle is skipped only for a stub list with at most one element (`{txt(conds_[0][0])}`), which has a single order")
+                        stmt = guard_if         # judged below like an unconditional statement of the loop body
+                    elif harmless in ("empty", "short"):
                         o1.holds(fn, call, f"the shuffle is skipped only for a stub list with at most one element (`{txt(conds_[0][0])}`), which has a single order")
                         continue
                     if harmless == "two":
                         o1.undecided(f"the shuffle is skipped for stub lists of up to two elements (`{txt(conds_[0][0])}`): the two orders of a two-stub list give the same motif on the same "
                                      "vertices unless the builder is direction-sensitive - not decided", fn, call)
                         continue
-                    o1.violated(fn, call, "the shuffle is conditional inside the loop over the stub lists: some topology may be left unshuffled")
-                    continue
+                    if not (harmless in ("empty", "short") and any(stmt is s for s in node.body)):
+                        o1.violated(fn, call, "the shuffle is conditional inside the loop over the stub lists: some topology may be left unshuffled")
+                        continue
                 before = node.body[: [i for i, s in enumerate(node.body) if s is stmt][0]]
                 if any(isinstance(s, (ast.Break, ast.Continue, ast.Return)) for s in before) or \
                         any(isinstance(x, (ast.Break, ast.Return)) for s in node.body for x in ast.walk(s)):
@@ -175,6 +180,37 @@ def run(ctx):
                     st_ = g.par.stmt_of(n)
                     if not (isinstance(st_, ast.Assign) and st_ in [x.node for x in bad]):
                         bad.append(rules.Effect(n, "sorted()", g.stubs, txt(n)))
+            # values DERIVED from the shuffled lists (chunks, the group handed to the builder) and the helpers they are handed to
+            derived = set(al)
+            for _ in range(4):
+                for n in astx.walk_fn(fn.node):
+                    if isinstance(n, (ast.For, ast.comprehension)) and astx.names_in(n.iter) & derived:
+                        derived |= astx.names_in(n.target)
+                    if isinstance(n, ast.Assign) and astx.names_in(n.value) & derived and not (isinstance(n.value, ast.Call) and g.in_build(n.value)):
+                        for t_ in n.targets:
+                            if isinstance(t_, ast.Name) and not (isinstance(n.value, ast.Call) and "_build_functions" in txt(n.value.func)):
+                                derived.add(t_.id)
+            seen_ = {id(e.node) for e in bad}
+            for n in astx.walk_fn(fn.node):
+                if isinstance(n, ast.Call) and txt(n.func) in ("sorted", "reversed", "set", "frozenset", "dict.fromkeys") and n.args and id(n) not in seen_ \
+                        and astx.names_in(n.args[0]) & ((derived - set(al)) if txt(n.func) in ("sorted", "reversed") else (derived - {g.stubs})) and "_build_functions" not in txt(n.args[0]):
+                    bad.append(rules.Effect(n, f"{txt(n.func)}()", g.stubs, txt(n)))
+            for n in astx.walk_fn(fn.node):
+                if isinstance(n, ast.Call) and any(astx.names_in(a_) & derived for a_ in n.args):
+                    cal = rules.resolve_call(prog, fn, n)
+                    if cal is None or cal.qualname == fn.qualname or not cal.module.name.startswith("gcmpy."):
+                        continue
+                    off = 1 if (cal.cls is not None and cal.params and cal.params[0] in ("self", "cls")) else 0
+                    ps = {cal.params[i + off] for i, a_ in enumerate(n.args) if i + off < len(cal.params) and astx.names_in(a_) & derived}
+                    for m in astx.walk_fn(cal.node):
+                        hit = None
+                        if isinstance(m, ast.Call) and txt(m.func) in ("sorted", "reversed", "set", "frozenset") and m.args and astx.names_in(m.args[0]) & ps:
+                            hit = txt(m)[:60]
+                        if isinstance(m, ast.Call) and isinstance(m.func, ast.Attribute) and m.func.attr in ("sort", "reverse") and astx.names_in(m.func.value) & ps:
+                            hit = txt(m)[:60]
+                        if hit:
+                            o3.violated(cal, m, f"`{hit}` in `{cal.qualname}` re-orders (or de-duplicates) what it is handed from the shuffled stub lists: the blocks / stubs are "
+                                                "matched by vertex order instead of by the shuffle - placements are biased by vertex id", shape_free=True)
             if bad:
                 for e in bad:
                     o3.violated(fn, e.node, f"{e.kind} on {e.path} re-orders shuffled stubs deterministically: which vertex lands in which slot of a motif is then fixed by vertex order "
